@@ -128,13 +128,29 @@ impl ParsedValue {
         locale: &Key,
         foreign_keys_paths: &ForeignKeysPaths,
     ) -> Result<Self> {
-        let parsed_value = [
-            Self::find_foreign_key,
-            Self::find_component,
-            Self::find_variable,
-        ]
-        .into_iter()
-        .find_map(|f| f(value, key_path, locale, foreign_keys_paths));
+        // a component opening before a foreign key contains it (`<b>$t(key)</b>`) and must be parsed first,
+        // otherwise splitting the value around the foreign key would cut the component in half.
+        // A foreign key opening first is parsed first: its args can contain components.
+        let component_first = match (Self::find_valid_component(value), value.find("$t(")) {
+            (Some((_, before, _, _)), Some(foreign_key_pos)) => before.len() < foreign_key_pos,
+            _ => false,
+        };
+        let finders = if component_first {
+            [
+                Self::find_component,
+                Self::find_foreign_key,
+                Self::find_variable,
+            ]
+        } else {
+            [
+                Self::find_foreign_key,
+                Self::find_component,
+                Self::find_variable,
+            ]
+        };
+        let parsed_value = finders
+            .into_iter()
+            .find_map(|f| f(value, key_path, locale, foreign_keys_paths));
         if let Some(parsed_value) = parsed_value {
             parsed_value
         } else {
